@@ -11,7 +11,6 @@ use common_traits::*;
 use crate::codes::params::{DefaultReadParams, ReadParams};
 use crate::traits::*;
 use core::convert::Infallible;
-use core::{mem, ptr};
 #[cfg(feature = "mem_dbg")]
 use mem_dbg::{MemDbg, MemSize};
 use std::error::Error;
@@ -106,10 +105,8 @@ where
 
     ///  Return the backend, consuming this reader.
     pub fn into_inner(self) -> Result<WR, Infallible> {
-        // SAFETY: forget(self) prevents double dropping backend
-        let backend = unsafe { ptr::read(&self.backend) };
-        mem::forget(self);
-        Ok(backend)
+        // This type has no destructor: the backend can simply be moved out
+        Ok(self.backend)
     }
 }
 
